@@ -87,3 +87,26 @@ META["C04"] = dict(
     level_note="Trusts the reference computation and the generator's side-condition filter; fang tuples follow 4 fixed type patterns; trees up to depth 4.",
     design_ref="DESIGN.md §5 C04",
 )
+
+PLANS["C03"] = dict(
+    level="exploration",
+    rule=("operation histories (0-40 operations, 0.5% of 260-700 to exceed 255 header insertions) over the public Response API: any of the 60 statuses; set (&'static str / String / Cow / Some(Cow)), "
+          "remove, append on all 45 standard header setters (framing headers excluded) and 7 custom names over a small hot working set so that operations collide; SetCookie with directive subsets; "
+          "text/html/json/payload bodies set repeatedly, drop_content, without_content. Each history is (a) sent directly with the declared size read through the hook and (b) returned by a handler "
+          "through Router::handle for GET and HEAD, serialised by the real send into an in-memory writer, re-parsed by an independent response parser and compared with a map model. "
+          "distinct_nontrivial = distinct abstract histories (op kinds per header, values as length classes) containing remove-then-set, append-after-set or a body replacement."),
+    quick=[R("c03", "rel", 120_000), R("c03", "miri", 160, shards=8, flags={"small": 1})],
+    thorough=[R("c03", "rel", 3_000_000), R("c03", "dbg", 400_000), R("c03", "asan", 600_000), R("c03", "miri", 3_200, shards=16, flags={"small": 1})],
+    floors={"quick": {"evaluations": 100_000, "distinct": 20_000, "long_histories": 100}, "thorough": {"evaluations": 3_000_000, "distinct": 300_000, "long_histories": 5_000}},
+    assumptions=["independent table of the standard header names (RFC spelling)", "header values never contain CR/LF/NUL (the code documents that as the user's responsibility)",
+                 "custom header names differ from each other and from standard names ignoring case", "framing of 1xx/304 responses is not judged beyond the header set (the statement is silent)",
+                 "rel/dbg run with the H3 capacity assertion (overrun -> panic); asan/miri run without it so that the tool sees the real out-of-bounds write"],
+)
+META["C03"] = dict(
+    engine="vh c03",
+    technique="runtime monitoring: model-based oracle over generated operation histories, real serializer output re-parsed by an independent HTTP parser; capacity assertion hook (H3); ASan/Miri without the assertion",
+    level_text=("Every generated history is executed against the real Response/Headers code and its bytes are checked for well-formedness, for the live header set with latest values, for "
+                "framing per status/method, and for written <= reserved bytes (assertion inside push_unchecked! and declared-size accessor)."),
+    level_note="Trusts the response parser and the 20-line map model. Stream bodies are C17's. Histories are sampled, not enumerated.",
+    design_ref="DESIGN.md §5 C03",
+)
